@@ -423,11 +423,14 @@ def propagate(ctx, prog):
     f = prog.method('Inner', 'read_from_stream')
     st, w = build_steady(prog, [])
     for (s, rv) in ex.run(st, f, [Ref(w.inner), Ref(Cell(Unit(), 'stream')), Ref(Cell(Unit(), 'framebuf')), FnItem('verif_handler')], bind={'S': 'VerifStream', 'F': 'VerifHandler'}):
+        handled = ('handled',) in s.trace     # the frame decoded before the pass ended was acted on, whatever ended the pass
         if s.roots['dec'] == 'ok':
-            c_ = z3.BoolVal(err_name(prog, rv) == 'Ok')
+            c_ = z3.BoolVal(err_name(prog, rv) == 'Ok' and handled)
+        elif not handled:
+            c_ = z3.BoolVal(False)
         else:
             c_ = same_value(err_value(rv), Lazy('errors::Error', 'decoder.err')) if (not isinstance(rv, Panic) and isinstance(rv, Enum) and rv.disc == 1) else z3.BoolVal(False)
-        m = ctx.decide(f"c06.propagate[{s.roots['dec']}]", s.pc, c_, group='the I/O loop reports the decoder outcome unchanged: end of stream / malformed data / I/O error end the connection even if frames were handed on in the same pass')
+        m = ctx.decide(f"c06.propagate[{s.roots['dec']}]", s.pc, c_, group='the I/O loop reports the decoder outcome unchanged: end of stream / malformed data / I/O error end the connection even if frames were handed on in the same pass - and those frames are acted on first')
         if m is not None:
             pv.append((s.roots['dec'], err_name(prog, rv)))
     if pv:
@@ -467,7 +470,8 @@ fn verif_replay_c06_rfs() {
         let r = inner.read_from_stream(&mut s, &mut fb, |_, _| { frames += 1; Ok(()) });
         let want = if terminal == 1 { "UnexpectedSocketClose" } else { "IoErrorReadingSocket" };
         let got = match &r { Ok(()) => "Ok".to_string(), Err(e) => format!("{:?}", e).split(|c| c == ' ' || c == '(' || c == '{').next().unwrap().to_string() };
-        if got != want && bad.len() < 3 { bad.push(format!("cut={}:tail={}:frames={}:got={}:want={}", cut, tail, frames, got, want)); }
+        let want_frames = if tail == 0 { 3 } else { 2 };   // every complete frame that arrived before the end is acted on
+        if (got != want || frames != want_frames) && bad.len() < 3 { bad.push(format!("cut={}:tail={}:frames={}:want_frames={}:got={}:want={}", cut, tail, frames, want_frames, got, want)); }
     } } }
     if bad.is_empty() { println!("VERIF-REPLAY-OK"); } else { println!("VERIF-REPLAY-VIOLATION decoder-error-swallowed {}", bad.join(";")); }
 }
